@@ -618,3 +618,67 @@ Proof.
   - rewrite andb_true_iff, eclass_eqb_eq, winners_present_iff. tauto.
   - apply eclass_eqb_eq.
 Qed.
+
+(* ---- the entry validator decides the readable statement -------------------- *)
+Lemma app_nil_iff : forall (A : Type) (a b : list A), a ++ b = [] <-> a = [] /\ b = [].
+Proof. intros. split; [apply app_eq_nil | intros [-> ->]; reflexivity]. Qed.
+
+Lemma tag_if_nil : forall b t, tag_if b t = [] <-> b = false.
+Proof. intros [|] t; cbn; split; intro; try reflexivity; discriminate. Qed.
+
+Theorem entry_validator_decides : forall pre tree fm d,
+  check_entry pre tree fm d = [] <-> EntryTrue tree d.
+Proof.
+  intros pre tree fm d. unfold check_entry, EntryTrue.
+  destruct (tree_get tree (d_path d)) as [n|];
+    [|split; [discriminate | intros (n & H & _); discriminate]].
+  match goal with |- (if ?c then _ else _) = [] <-> _ => destruct c eqn:Stale end.
+  - (* a stale entry under a symbolic link is never true *)
+    split; [discriminate|]. intros (n' & E & _ & _ & _ & Hs). inv_ok E. exfalso.
+    apply andb_true_iff in Stale. destruct Stale as [S1 S3].
+    apply andb_true_iff in S1. destruct S1 as [_ S2]. apply tkind_eqb_eq in S2.
+    destruct (d_sum d) as [sm|]; [|discriminate].
+    apply negb_true_iff in S3. apply N.eqb_neq in S3. apply S3. apply Hs; auto.
+  - rewrite !app_nil_iff, tag_if_nil.
+    assert (P1 : negb (Bool.eqb (d_dir d) (tkind_eqb (t_kind n) TDir)) = false <-> (d_dir d = true <-> t_kind n = TDir)).
+    { rewrite negb_false_iff, Bool.eqb_true_iff. rewrite <- (tkind_eqb_eq (t_kind n) TDir).
+      destruct (d_dir d), (tkind_eqb (t_kind n) TDir); intuition congruence. }
+    assert (P2 : (if N.eqb (N.land (t_mode n) 511) (d_perm d) then []
+                  else if d_dir d && match fm (d_path d) with
+                                     | Some f => N.eqb f (N.land (t_mode n) 511) && negb (N.eqb f (d_perm d))
+                                     | None => false end
+                       then ["viol:dir-mode-first-wins"]
+                       else if negb (d_dir d) && match tree_get pre (d_path d) with
+                                                 | Some o => tkind_eqb (t_kind o) TReg && N.eqb (t_sum o) (t_sum n) && N.eqb (t_mode o) (t_mode n)
+                                                 | None => false end
+                            then ["viol:db-records-preexisting-file"]
+                            else if negb (d_dir d) && tkind_eqb (t_kind n) TReg && match d_sum d with None => true | Some _ => false end
+                                 then ["viol:db-hardlink-records-header-mode"]
+                                 else ["viol:db-mode-mismatch"]) = [] <-> N.land (t_mode n) 511 = d_perm d).
+    { destruct (N.eqb_spec (N.land (t_mode n) 511) (d_perm d)) as [E|E]; [tauto|].
+      split; [|contradiction].
+      repeat match goal with |- (if ?c then _ else _) = [] -> _ => destruct c end; discriminate. }
+    assert (P3 : (if (t_uid n <? 0)%Z then []
+                  else if Z.eqb (t_uid n) (Z.of_N (d_uid d)) && Z.eqb (t_gid n) (Z.of_N (d_gid d)) then []
+                  else if Z.eqb (t_uid n) 0 && Z.eqb (t_gid n) 0 then ["viol:db-owner-not-applied"]
+                  else ["viol:db-owner-mismatch"]) = [] <->
+                 ((t_uid n < 0)%Z \/ (t_uid n = Z.of_N (d_uid d) /\ t_gid n = Z.of_N (d_gid d)))).
+    { destruct (Z.ltb_spec (t_uid n) 0) as [L|L]; [tauto|].
+      destruct (Z.eqb_spec (t_uid n) (Z.of_N (d_uid d))) as [E1|E1];
+        destruct (Z.eqb_spec (t_gid n) (Z.of_N (d_gid d))) as [E2|E2]; cbn [andb];
+        try tauto;
+        (split; [destruct (Z.eqb (t_uid n) 0 && Z.eqb (t_gid n) 0); discriminate | intros [?|[? ?]]; [lia | contradiction]]). }
+    assert (P4 : match d_sum d with
+                 | Some sm => tag_if ((tkind_eqb (t_kind n) TReg || tkind_eqb (t_kind n) TSym) && negb (N.eqb (t_sum n) sm)) "viol:db-content-mismatch"
+                 | None => []
+                 end = [] <->
+                 (forall sm, d_sum d = Some sm -> t_kind n = TReg \/ t_kind n = TSym -> t_sum n = sm)).
+    { destruct (d_sum d) as [sm|]; [|split; [intros _ sm H; discriminate | reflexivity]].
+      rewrite tag_if_nil, andb_false_iff, orb_false_iff, negb_false_iff, N.eqb_eq.
+      split.
+      - intros [[A B]|A] sm' E [K|K]; inv_ok E; auto; rewrite K in *; discriminate.
+      - intro H. destruct (t_kind n) eqn:K; cbn; auto; right; apply H; auto. }
+    rewrite P1, P2, P3, P4. split.
+    + intros (A & B & C & D). exists n. auto.
+    + intros (n' & E & A & B & C & D). inv_ok E. auto.
+Qed.
